@@ -27,6 +27,7 @@ import (
 	"time"
 
 	"github.com/database64128/shadowsocks-go/jsoncfg"
+	"github.com/database64128/shadowsocks-go/logging"
 	"github.com/database64128/shadowsocks-go/service"
 	"go.uber.org/zap"
 	"go.uber.org/zap/zapcore"
@@ -50,6 +51,13 @@ type Probe struct {
 	Greet      bool   `json:"greet,omitempty"`          // the target speaks first; the payload follows its greeting
 	SilentMs   int    `json:"silentMs,omitempty"`       // without a greeting: how long to stay silent before the payload
 	Path       string `json:"path,omitempty"`           // api
+	TLS        bool   `json:"tls,omitempty"`            // speak TLS to the listener (harness trusts ca.crt of the plan, server name proxy.test)
+	TLSCert    bool   `json:"tlsCert,omitempty"`        // present the client certificate cli.crt/cli.key of the plan
+	Pre407     bool   `json:"pre407,omitempty"`         // tcp-http: first a CONNECT without and one with wrong credentials; both must be refused
+	Burst      int    `json:"burst,omitempty"`          // burst-*: number of back-to-back datagrams from one socket
+	Sizes      []int  `json:"sizes,omitempty"`          // mtu-*: payload sizes
+	Expect     []int  `json:"expect,omitempty"`         // mtu-*: per size 1 = must be echoed, -1 = must not be echoed, 0 = free
+	Note       string `json:"note,omitempty"`           // classification carried into the labels
 }
 
 // Plan is a configuration plus the smoke script that exercises it.
@@ -62,6 +70,11 @@ type Plan struct {
 	Listen  []string          `json:"listen"` // "tcp:@@P0@@" / "udp:@@P0@@": sockets that must be bound before the script starts
 	Probes  []Probe           `json:"probes"`
 	StopMax int               `json:"stopMaxMs"`
+	// logging configuration of the run, as cmd/shadowsocks-go builds it: -logLevel and the console
+	// preset (-zapConf console | console-nocolor | console-notime | console-nocolor-notime); the
+	// sink is io.Discard instead of stderr. "" = debug / console.
+	LogLevel  string `json:"logLevel,omitempty"`
+	LogPreset string `json:"logPreset,omitempty"`
 }
 
 // Result is what the child reports.
@@ -82,6 +95,7 @@ type Result struct {
 
 func substitute(s, dir string, echo, dns int, ports []int) string {
 	s = strings.ReplaceAll(s, "@@GREET@@", strconv.Itoa(greetPort))
+	s = strings.ReplaceAll(s, "@@E53@@", echo53Addr)
 	s = strings.ReplaceAll(s, "@@DIR@@", dir)
 	s = strings.ReplaceAll(s, "@@ECHO@@", strconv.Itoa(echo))
 	s = strings.ReplaceAll(s, "@@DNS@@", strconv.Itoa(dns))
@@ -104,6 +118,10 @@ func writeFiles(dir string, files map[string]string) error {
 // 19997 where nothing is bound, i.e. for load-only use in the parent).
 var greetPort = 19997
 
+// echo53Addr is the ip:53 address of the UDP echo target on the DNS port (set by the process that
+// owns a netEnv; a fixed unbound loopback address for load-only use in the parent).
+var echo53Addr = "127.18.0.53:53"
+
 // loadConfig mirrors cmd/shadowsocks-go: jsoncfg.Load (unknown fields refused) then Config.Manager.
 func loadConfig(path string, logger *zap.Logger) (*service.Config, *service.Manager, error) {
 	var sc service.Config
@@ -117,9 +135,23 @@ func loadConfig(path string, logger *zap.Logger) (*service.Config, *service.Mana
 	return &sc, m, nil
 }
 
-func newLogger() (*zap.Logger, *observer.ObservedLogs) {
-	enc := zapcore.NewJSONEncoder(zap.NewProductionEncoderConfig())
-	discard := zapcore.NewCore(enc, zapcore.AddSync(io.Discard), zapcore.DebugLevel) // exercises every logging path
+// newLogger builds the logger the way cmd/shadowsocks-go does for the console presets
+// (logging.NewProductionConsoleZapLogger: console encoder with the project's encoder configuration
+// at the -logLevel level), except that the sink is io.Discard. At level "debug" every
+// logger.Check(zap.DebugLevel, ...) block runs with real field values, at "info" (the default of the
+// command) and "warn" they are skipped, as in production. A second core only collects warnings and
+// errors for the harness (start-up failures); it never enables anything below warn.
+func newLogger(level, preset string) (*zap.Logger, *observer.ObservedLogs) {
+	lvl := zapcore.DebugLevel
+	if level != "" {
+		if err := lvl.UnmarshalText([]byte(level)); err != nil {
+			lvl = zapcore.DebugLevel
+		}
+	}
+	noColor := strings.Contains(preset, "nocolor")
+	noTime := strings.Contains(preset, "notime") || preset == "systemd"
+	enc := zapcore.NewConsoleEncoder(logging.NewProductionConsoleEncoderConfig(noColor, noTime))
+	discard := zapcore.NewCore(enc, zapcore.AddSync(io.Discard), lvl)
 	obsCore, logs := observer.New(zapcore.WarnLevel)
 	return zap.New(zapcore.NewTee(discard, obsCore)), logs
 }
@@ -134,6 +166,7 @@ func runPlan(p *Plan) (res Result) {
 	defer env.close()
 	env.installResolver()
 	greetPort = env.greetTCP.Addr().(*net.TCPAddr).Port
+	echo53Addr = env.echo53Addr()
 
 	for attempt := 1; attempt <= 4; attempt++ {
 		res = Result{Attempts: attempt}
@@ -180,7 +213,12 @@ func runOnce(p *Plan, env *netEnv, res *Result) (retry bool) {
 		res.LoadErr = "harness: " + err.Error()
 		return false
 	}
-	logger, logs := newLogger()
+	logger, logs := newLogger(p.LogLevel, p.LogPreset)
+	tm, err := loadTLSClient(p.Files)
+	if err != nil {
+		res.LoadErr = "harness: " + err.Error()
+		return false
+	}
 	_, m, err := loadConfig(cfgPath, logger)
 	if err != nil {
 		res.LoadErr = err.Error()
@@ -227,7 +265,15 @@ func runOnce(p *Plan, env *netEnv, res *Result) (retry bool) {
 		var r probeResult
 		switch {
 		case strings.HasPrefix(pr.Kind, "tcp-"):
-			r = tcpExchange(pr, addr, target)
+			r = tcpExchange(pr, addr, target, tm)
+		case pr.Kind == "tls-nocert":
+			r = tlsNoCertProbe(pr, addr, target, tm)
+		case strings.HasPrefix(pr.Kind, "burst-"):
+			r = udpBurst(pr, addr, target)
+		case strings.HasPrefix(pr.Kind, "mtu-"):
+			r = udpMTU(pr, addr, target)
+		case pr.Kind == "assoc-socks5":
+			r = socks5Associate(pr, addr, target)
 		case pr.Kind == "udp-garbage":
 			r = udpGarbage(pr, addr)
 		case strings.HasPrefix(pr.Kind, "udp-"):
@@ -374,6 +420,38 @@ func evaluate(p *Plan, r *Result, tolerateRejectEOF bool) (violation string, exe
 		}
 		if pr.NTSeen {
 			labels = append(labels, "udp-nontarget-reply-delivered")
+		}
+		if pr.Outcome == "skipped" {
+			// the environment could not provide what the probe needs (e.g. no UDP port 53 for the harness)
+			labels = append(labels, "probe-skipped:"+pp.Kind)
+			continue
+		}
+		for _, n := range strings.Split(pp.Note, ",") {
+			if n != "" {
+				labels = append(labels, n)
+			}
+		}
+		if pp.TLS {
+			labels = append(labels, "tls-probe", fmt.Sprintf("tls-probe:client-cert=%v", pp.TLSCert))
+		}
+		switch pr.Outcome {
+		case "auth-bypass":
+			return fmt.Sprintf("SIG=C18/http-auth-bypass server=%s: enableBasicAuth is on, but a CONNECT without valid credentials was answered with 200 (%s)", pp.Server, pr.Err), false, labels
+		case "cert-bypass":
+			return fmt.Sprintf("SIG=C18/tls-client-cert-bypass server=%s: requireAndVerifyClientCert is on, but a TLS client without a certificate got a tunnel (%s)", pp.Server, pr.Err), false, labels
+		case "burst-duplicate":
+			return fmt.Sprintf("SIG=C18/smoke-burst-duplicate/%s server=%s: a datagram of a back-to-back burst was delivered more than once: %s", pp.Kind, pp.Server, pr.Err), false, labels
+		case "over-budget-delivered":
+			return fmt.Sprintf("SIG=C18/mtu-budget-exceeded/%s server=%s: a payload one byte above what fits the configured MTU was relayed: %s", pp.Kind, pp.Server, pr.Err), false, labels
+		}
+		if pp.Pre407 && pr.OK {
+			labels = append(labels, "auth-refused-then-accepted")
+		}
+		if pp.Kind == "tls-nocert" && pr.OK {
+			labels = append(labels, "tls-nocert-refused")
+		}
+		if pr.Retried {
+			labels = append(labels, "probe-retried:"+pp.Kind)
 		}
 		if pp.ExpectEcho && !pr.OK {
 			return fmt.Sprintf("SIG=C18/smoke-no-echo/%s server=%s addr=%s: %s", pp.Kind, pp.Server, pr.Addr, pr.Err), false, labels
